@@ -18,6 +18,7 @@ structure St where
   preds : List (Nat × TextPred) := []
   wild : Bool := false
   qfree : Bool := true
+  nonRooted : List Nat := []   -- patterns that are top-level sibling groups (`pat <i> 0`)
   oldRange : Bool := false   -- behavioural probe: the code under test has the pre-5d2fccd range test
   cur : String := ""
   curM : Array Match := #[]
@@ -115,9 +116,14 @@ def runChk (s : St) (ws : List String) : String :=
     let v := rest.map natOf
     let rng := (incOf kind v).getD defaultRange
     let us := getM s u; let rs := getM s r
-    let keep := if mode == "w" then keepWithin rng else keepIntersect rng
+    -- a non-rooted pattern starts wherever the PARENT of its first node intersects the range
+    let keepI (m : Match) : Bool :=
+      if s.nonRooted.contains m.pat then (!m.hasPar || intersectsSpec m.par rng) else keepIntersect rng m
+    let keep := if mode == "w" then keepWithin rng else keepI
     let exp := us.filter keep
-    if us.any (fun m => !m.hasRoot) then
+    if mode == "w" && us.any (fun m => s.nonRooted.contains m.pat) then
+      s!"{head} clause=b judge=ok corr=- n1={us.length} n2={rs.length} mode={mode}{kind} skipped=nonrooted-containing"
+    else if us.any (fun m => !m.hasRoot) then
       s!"{head} clause=b judge=ok corr=- n1={us.length} n2={rs.length} mode={mode}{kind} skipped=rootless"
     else
     let ok := judgeB keep emptyRoot s.qfree us rs
@@ -210,6 +216,7 @@ def step (s : St) (line : String) : IO St := do
     return { s with uid := s.uid + 1 }
   match line.splitOn " " with
   | ["case", id] => return { id := id, oldRange := s.oldRange }
+  | ["pat", i, rooted] => return (if rooted == "0" then { s with nonRooted := natOf i :: s.nonRooted } else s)
   | ["probe", "node_precedes_range", v] => return { s with oldRange := v == "old" }
   | ["text", h] => return { s with text := (unhexBytes h).toArray }
   | ["text"] => return { s with text := #[] }
